@@ -213,7 +213,10 @@ fn gen_other(t: &mut Tape, pool: &Pool, p: &IlParams, max_blocks: usize, allow_i
             exit = None;
         }
     }
-    FnSpec { address: 0x4000, blocks, edges, entry, exit, gaps: vec![], index: None }
+    // `index: Some(_)` is used as a flag here (a ControlFlowGraph has no index): the graph is merged
+    // before it is handed to append / insert, so that its block indices have holes
+    let premerge = if allow_invalid && t.chance(1, 4) { Some(1) } else { None };
+    FnSpec { address: 0x4000, blocks, edges, entry, exit, gaps: vec![], index: premerge }
 }
 
 fn gen_ref_head(t: &mut Tape) -> Ref {
@@ -1183,7 +1186,12 @@ impl<'a> Exec<'a> {
             self.obs.exclude("append-not-issued:exit-dangling-by-known-finding");
             return Ok(());
         }
-        let other = spec.build_cfg().expect("generated graph builds");
+        let mut other = spec.build_cfg().expect("generated graph builds");
+        if spec.index.is_some() {
+            // a graph that was edited before: merged, so that its block indices have holes
+            let _ = guard(|| other.merge());
+            self.obs.class("appended-graph-was-merged-before");
+        }
         let (osnap, _) = observe(&other, true);
         let before = self.snap.clone();
         self.note_shape();
@@ -1283,7 +1291,10 @@ impl<'a> Exec<'a> {
     }
 
     fn do_insert(&mut self, spec: &FnSpec) -> Result<(), Failure> {
-        let other = spec.build_cfg().expect("generated graph builds");
+        let mut other = spec.build_cfg().expect("generated graph builds");
+        if spec.index.is_some() {
+            let _ = guard(|| other.merge());
+        }
         let (osnap, _) = observe(&other, true);
         let before = self.snap.clone();
         let valid = osnap.entry.is_some() && osnap.exit.is_some();
